@@ -84,14 +84,6 @@ func solve(script string, dir string, name string, timeout time.Duration, modelT
 		return solveResult{answer: "error", output: err.Error()}
 	}
 	res := solveResult{answer: "unknown", all: map[string]string{}}
-	if !all {
-		a, o, s := runOne(context.Background(), solvers[1], file, 3*time.Second)
-		res.all[solvers[1].name] = a
-		if a == "unsat" || a == "sat" {
-			res.answer, res.solver, res.secs, res.output = a, solvers[1].name, s, o
-			return res
-		}
-	}
 	ctx, cancel := context.WithCancel(context.Background())
 	defer cancel()
 	type r struct {
@@ -99,11 +91,34 @@ func solve(script string, dir string, name string, timeout time.Duration, modelT
 		secs             float64
 	}
 	ch := make(chan r, len(solvers))
-	for _, sp := range solvers {
-		go func(sp solverSpec) {
+	launch := func(sp solverSpec) {
+		go func() {
 			a, o, s := runOne(ctx, sp, file, timeout)
 			ch <- r{a, o, sp.name, s}
-		}(sp)
+		}()
+	}
+	// cvc5 decides most obligations at once: it gets a head start of a second, then the others join the race
+	launch(solvers[1])
+	var early *r
+	if !all {
+		select {
+		case x := <-ch:
+			early = &x
+		case <-time.After(1200 * time.Millisecond):
+		}
+		if early != nil && (early.ans == "unsat" || early.ans == "sat") {
+			res.all[early.solver] = early.ans
+			res.answer, res.solver, res.secs, res.output = early.ans, early.solver, early.secs, early.out
+			return res
+		}
+	}
+	for i, sp := range solvers {
+		if i != 1 {
+			launch(sp)
+		}
+	}
+	if early != nil {
+		ch <- *early
 	}
 	var errs []string
 	got := 0
@@ -246,7 +261,7 @@ func dischargeAll(obls []*Obligation, dir string, timeout time.Duration, tier st
 	// was starved while everything ran in parallel, or an unlucky instantiation order, is not a verdict)
 	var again []*Obligation
 	for _, o := range obls {
-		if !o.ExpectSat && o.Status == "failed" && (o.Answer == "timeout" || o.Answer == "unknown") {
+		if !o.ExpectSat && !o.noRetry && o.Status == "failed" && (o.Answer == "timeout" || o.Answer == "unknown") {
 			again = append(again, o)
 		}
 	}
